@@ -288,6 +288,10 @@ void disasm_range_webasm(
       opcode = memory->read8(start + n);
 
       snprintf(temp, sizeof(temp), "%02x ", opcode);
+
+      // Long instructions (LEB128 operands, br_table) don't fit the column.
+      if (strlen(hex) + strlen(temp) >= sizeof(hex)) { break; }
+
       strcat(hex, temp);
     }
 
